@@ -12,6 +12,7 @@ more often than `budget` = longest trajectory + timeout + termination tick +
 SLACK is recorded as `Spins` (a private exception is raised from the patched
 sleep so that a hanging implementation cannot hang the harness)."""
 import itertools
+import math
 import threading
 from fractions import Fraction
 from unittest import mock
@@ -85,17 +86,32 @@ def pfx(fn):
     return 'T_' if fn in TASK_FNS else 'P_'
 
 
+def tmo_ticks(t):
+    """the case's timeout in ticks of 0.1 s, exactly: None | Fraction (an int, or a string 'p/q'; may be negative)"""
+    return None if t is None else Fraction(t)
+
+
+def tmo_deadline(t):
+    """first tick at which `timeout and timeout <= elapsed` holds (None: never)"""
+    t = tmo_ticks(t)
+    if t is None or t == 0:
+        return None
+    return 0 if t < 0 else math.ceil(t)
+
+
 def budget_of(case):
     ents = [case['traj']] if 'traj' in case else [e[1] for e in case['ents']]
-    return max([len(t) for t in ents] + [0]) + (case.get('timeout') or 0) + (case.get('term') or 0) + SLACK
+    return max([len(t) for t in ents] + [0]) + (tmo_deadline(case.get('timeout')) or 0) + (case.get('term') or 0) + SLACK
 
 
 def timeout_arg(t):
+    """what is passed as `timeout=`: seconds, exact (an int for whole seconds as an application would pass, else
+    a Fraction; never a float that is not exactly the value meant)"""
+    t = tmo_ticks(t)
     if t is None:
         return None
-    if t % 10 == 0:
-        return t // 10                      # whole seconds, as an application would pass
-    return Fraction(t, 10)
+    s = t / 10
+    return int(s) if s.denominator == 1 else s
 
 
 class C15Wait(Prop):
@@ -111,8 +127,8 @@ class C15Wait(Prop):
     corr_name = ('Wait.Model(task_wait/pilot_wait/wait_tasks/wait_pilots) vs Task.wait/Pilot.wait/'
                  'TaskManager.wait_tasks/PilotManager.wait_pilots under a virtual clock')
     rule = ('corpus; exhaustive: requested sets (none/empty/one/several) x trajectories of length <= 3 (quick) or '
-            '<= 4 (thorough) over 6 representative states x timeouts {None,0,1,3} for Task.wait and Pilot.wait, and '
-            'pairs of trajectories of length <= 2 x 3 requests x 3 uid forms for the manager calls; staggered sets of 2-3 '
+            '<= 4 (thorough) over 6 representative states x timeouts {None,0,1,3,-1,-1/2 tick} for Task.wait and Pilot.wait, and '
+            'pairs of trajectories of length <= 2 x 3 requests x 3 uid forms x timeouts {None, negative (quick); None,0,-1,-1/2,2 (thorough)} for the manager calls; staggered sets of 2-3 '
             'entities that pass through the requested transient state at different ticks (delays x dwell x endings x '
             'every transient request); for wait_tasks, tasks that are already past the awaited transient state at the '
             'call or jump over it between two ticks and linger in a later non-final state; random '
@@ -123,7 +139,8 @@ class C15Wait(Prop):
         'translator translators/states.py (ast -> Gen/StatesTables.v: state names, _task_state_values, FINAL; fail closed)',
         'correspondence harness harness/c15.py: the real wait methods on objects built without __init__, the '
         '`time` name of each module replaced by a virtual clock (sleep(d) advances by exactly d and moves every '
-        'entity along its trajectory; 1 tick = 0.1 s), `_terminate` replaced by a clock-driven flag; result '
+        'entity along its trajectory; 1 tick = 0.1 s), `_terminate` replaced by a clock-driven flag; timeouts are '
+        'passed exactly (int seconds or Fraction; None, 0, negative, fractional, small, large); result '
         'compared inside Coq by vm_compute with the model',
         'modelled, not verified: reporter/log calls, locks; a state that is visible for less than one polling '
         'interval (0.1 s) is outside the statement; clause `timely` = (all awaited entities show a requested/final '
@@ -182,7 +199,8 @@ class C15Wait(Prop):
         return [pick() for _ in range(rng.randint(1, 3))]
 
     def _rand_common(self, rng):
-        return dict(timeout=rng.choice([None, None, None, 0, 1, 2, 3, 5, 10, 20]),
+        return dict(timeout=rng.choice([None, None, None, None, 0, 0, 1, 2, 3, 5, 10, 20, 20, 300,
+                                        -1, -1, -30, -10, '-1/2', '3/2', '-7/3']),
                     term=rng.choice([None, None, None, None, 0, 1, 2, 4, 7]),
                     t0=rng.choice([0, 7, 1000, 123456]))
 
@@ -196,7 +214,7 @@ class C15Wait(Prop):
             for n in range(1, maxlen + 1):
                 for tr in itertools.product(R[kind], repeat=n):
                     for req in reqs:
-                        for to in ([None, 0, 1, 3] if (n <= 2 or tier != 'quick') else [None, 2]):
+                        for to in ([None, 0, 1, 3, -1, '-1/2'] if (n <= 2 or tier != 'quick') else [None, 2, -30]):
                             yield dict(fn=fn, traj=list(tr), req=req, timeout=to, term=None, t0=1000)
         # exhaustive small scope for the manager calls: 2 entities, short trajectories
         for fn, kind in (('wait_tasks', 'T'), ('wait_pilots', 'P')):
@@ -208,8 +226,12 @@ class C15Wait(Prop):
                 for b in trs:
                     for req in (None, R[kind][2], ['DONE']):
                         for uids in (None, 1, [2, 1]):
-                            yield dict(fn=fn, ents=[[1, a], [2, b]], uids=uids, req=req,
-                                       timeout=None, term=None, t0=1000)
+                            # timeouts incl. the boundary values: 0 (= none) and negative (a used-up budget)
+                            for to in ((None, -1) if tier == 'quick' else (None, 0, -1, '-1/2', 2)):
+                                if tier == 'quick' and to == -1 and uids == 1:
+                                    to = -30
+                                yield dict(fn=fn, ents=[[1, a], [2, b]], uids=uids, req=req,
+                                           timeout=to, term=None, t0=1000)
         # entities that pass THROUGH a requested transient state at different
         # ticks: entity i starts to move after delay d_i and stays `dwell` ticks
         # in every state; by the time the last one shows the requested state
@@ -390,9 +412,17 @@ class C15Wait(Prop):
     def _nat_opt(self, n):
         return 'None' if n is None else '(Some %s)' % L.nat(n)
 
+    def _tmo(self, t):
+        t = tmo_ticks(t)
+        if t is None:
+            return 'TNone'
+        if t < 0:
+            return 'TNeg'
+        return '(TTicks %s)' % L.nat(math.ceil(t))      # the clock moves in whole ticks
+
     def _inp(self, case):
         fn = case['fn']
-        common = '%s %s %s %s' % (self._req(fn, case['req']), self._nat_opt(case.get('timeout')),
+        common = '%s %s %s %s' % (self._req(fn, case['req']), self._tmo(case.get('timeout')),
                                   self._nat_opt(case.get('term')), L.nat(budget_of(case)))
         if 'traj' in case:
             return '%s %s' % (common, self._traj(fn, case['traj']))
@@ -443,6 +473,8 @@ class C15Wait(Prop):
         for k in ('term', 'timeout'):
             if case.get(k) is not None:
                 yield dict(case, **{k: None})
+        if case.get('timeout') is not None and tmo_ticks(case['timeout']) < 0 and case['timeout'] != -1:
+            yield dict(case, timeout=-1)
         if case.get('t0'):
             yield dict(case, t0=0)
         if 'traj' in case:
@@ -486,7 +518,8 @@ class C15Wait(Prop):
             inc('fn', c['fn'])
             inc('outcome', 'spins' if o.get('spins') else ('raises' if 'exc' in o else 'returns'))
             inc('req', 'default' if not c['req'] else ('one' if isinstance(c['req'], str) else 'list'))
-            inc('timeout', 'none' if not c.get('timeout') else 'set')
+            t = tmo_ticks(c.get('timeout'))
+            inc('timeout', 'none' if t is None else ('zero' if t == 0 else ('negative' if t < 0 else 'positive')))
             inc('entities', 1 if 'traj' in c else len(c['ents']))
         return d
 
